@@ -280,4 +280,62 @@ PROPS = {
                 "owner's ordinary request after half of the refusals, both drivers; distinct by rendered term",
         "trusted": [],
     },
+    "C08": {
+        "harness": "c08",
+        "imports": ["Base", "Nonce", "Store", "ReqHosts", "Check08"],
+        "case_type": "c08_case",
+        "check": "c08_check",
+        "mismatch_is_violation": True,
+        "theories": ["theories/Base.v", "theories/Nonce.v", "theories/Store.v", "theories/StoreProofs.v",
+                     "theories/ReqHosts.v", "theories/ReqHostsProofs.v", "gen/Facts.v"],
+        "check_theories": ["theories/Check08.v"],
+        "level_text": "Coq theorems over the requestHosts model, for every store answer satisfying the ActiveHosts "
+                      "contract, every registry and every assignment of whitelist outcomes: each returned host is an "
+                      "active full-node host of the requested kind, not the requester, not already its peer, connected, "
+                      "acknowledged and was sent the whitelist instruction; failed/timed-out hosts are left out; the "
+                      "reply never exceeds the requested count nor the pool maximum and is empty for zero or negative "
+                      "requests; an error is returned iff the reply would be empty; when every active host of the kind "
+                      "is eligible and acknowledges the reply has exactly min(requested, supply) hosts; the legacy "
+                      "default is the regenerated constant 3. Tied to the code by peer requests on generated "
+                      "populations against the real pool with scripted fake hosts (ack / error / stall beyond the 5 s "
+                      "timeout), checked in-kernel against the predicate form of those statements.",
+        "level_note": "Trusted: Coq kernel; the store's selection among active hosts is an arbitrary input satisfying "
+                      "the (proved-for-the-model, corresponded-for-the-drivers) ActiveHosts contract; fake hosts record "
+                      "the whitelist call on arrival; ack-before-reply ordering holds by construction of the model "
+                      "(the reply is a filter of acknowledged calls) and is observed through call records.",
+        "technique": "Coq proof over an oracle-parameterised model + vm_compute predicate check on real pool runs",
+        "rule": "populations of 0-6 hosts (kinds geth/parity, a fifth stale, a fifth with a closed connection, a quarter "
+                "already peered, a tenth answering with an error, stalls in 4 extra cases), requester client/host/"
+                "unregistered, counts -3,-1,0,1,2,supply,supply+2,3, maxima 0/1/3, kinds any/geth/parity, via "
+                "vipnode_peer or the legacy vipnode_client; distinct by rendered term",
+        "trusted": [],
+    },
+    "C09": {
+        "harness": "c09",
+        "imports": ["Base", "Nonce", "Store", "ReqHosts", "Check08"],
+        "case_type": "c09_case",
+        "check": "c09_check",
+        "diag": "c09_diag",
+        "mismatch_is_violation": True,
+        "theories": ["theories/Base.v", "theories/ReqHosts.v", "theories/ReqHostsProofs.v"],
+        "check_theories": ["theories/Check08.v"],
+        "level_text": "Coq theorems over the registry model for every history of registrations and closes (no "
+                      "registration arrives on a closed connection): a host is instructable, and on exactly which "
+                      "connection, iff the connection it most recently registered on is still open (simulation against "
+                      "a latest-registration/closed-set specification, induction over the history); closing a "
+                      "connection removes every host registered on it and nobody else, so closing a reconnected host's "
+                      "old connection keeps the new registration; the registry holds one entry per distinct host "
+                      "(NumRemotes); the pinned variant with a single reverse entry is refuted by a 3-event history. "
+                      "Tied to the code by event sequences on the real pool (hosts registering over new or shared "
+                      "net.Pipe Remotes, closes in any order incl. twice) with NumRemotes after every event and probe "
+                      "peer requests showing which connection objects receive vipnode_whitelist.",
+        "level_note": "Trusted: Coq kernel; registry reads/writes are atomic (pool mutex); a request already past its "
+                      "registry lookup may still call a connection that closes meanwhile (the property speaks of requests "
+                      "that start later); server.go's disconnect callback is exercised in-process via CloseRemote.",
+        "technique": "Coq proof (simulation invariant, induction over histories) + vm_compute correspondence on the real pool",
+        "rule": "sequences of 6-19 events over 3 hosts and up to ~10 connections: (re)connect on a new or an existing "
+                "open connection (also another host's), close any connection (open, closed, old, new), probe request; "
+                "distinct by rendered term",
+        "trusted": [],
+    },
 }
